@@ -39,6 +39,10 @@ def block(s, rng):
         for o in ops:
             lines.append("q %s %s" % (o, seq))
             idx.append((name, o))
+        if len(ops) >= 4:
+            # kappa once more through the two-group route kappa_X(ED, KR): facade method and backend method
+            lines.append("q kappaX %s s000045,s000044 s00004b,s000052%s" % (seq, " @backend" if rng.random() < 0.4 else ""))
+            idx.append((name, "kappaX"))
     return lines, idx
 
 
@@ -59,6 +63,14 @@ def cases(rng, tier):
     # the property's own queries AFTER other public calls on the same object (same answers as on a fresh one)
     for c in gen.after_calls_cases(rng, 16 if tier == "quick" else 120, ['kappa', 'delta', 'dmax', 'scd', 'omega']):
         yield c
+    # the delta-max ARRANGEMENT (returnSeqDeltaMax=True) of one-sign and lopsided chains and of their charge-inverted twins
+    for _ in range(30 if tier == "quick" else 300):
+        nch, nneu = rng.randint(2, 14), rng.randint(0, 14)
+        pat = ["+"] * nch + ["0"] * nneu + (["-"] * rng.randint(1, 2) if rng.random() < 0.3 else [])
+        rng.shuffle(pat)
+        sq = gen.spell("".join(pat), rng)
+        inv = "".join(INV.get(c, c) for c in sq)
+        yield Case(["q dmaxperm " + sq, "q dmaxperm " + inv, "q dmax " + sq, "q dmax " + inv], {"kind": "permutant-of-twins", "twins": (sq, inv)})
     n = 6 if tier == "quick" else 8
     for pat in gen.patterns_upto(n):
         s = gen.spell(pat, rng)
@@ -89,6 +101,18 @@ def judge(case, reals, gens, specs):
     if case.tags.get("kind") in ("after-other-calls", "after-calls-on-another-object", "object-from-file", "object-from-big-file", "very-long", "repeated-calls"):
         from ..runner import default_judge
         return default_judge(None, case, reals, gens, specs)
+    if case.tags.get("kind") == "permutant-of-twins":
+        out = []
+        for i, sq in enumerate(case.tags["twins"]):
+            ok, why = core.perm_ok(reals[i], specs[i], sq)
+            if not ok:
+                out.append(("violation", i, "%s: %s" % (case.block[i], why)))
+            if not core.match(reals[2 + i], specs[2 + i])[0]:
+                out.append(("violation", 2 + i, "%s: real=%r spec=%s" % (case.block[2 + i], reals[2 + i], specs[2 + i][:100])))
+        a, b = reals[0], reals[1]
+        if a[0] == b[0] == "perm" and abs(a[1] - b[1]) > 1e-9 * max(1.0, abs(a[1])):
+            out.append(("violation", 1, "METAMORPHIC delta-max (with the arrangement requested) of the charge-inverted twin is %r, of the original %r" % (b[1], a[1])))
+        return out
     out = []
     idx = case.tags.get("idx")
     for i, (r, g, s) in enumerate(zip(reals, gens, specs)):
